@@ -303,7 +303,7 @@ impl<C: Config, Q: Query> Snapshot<C, Q> {
                 .executor_registry
                 .get_executor_entry_by_type_id(&callee.stable_type_id());
 
-            let _ = entry
+            let repaired = entry
                 .repair_query_from_query_id(
                     engine,
                     &callee.compact_hash_128(),
@@ -321,6 +321,15 @@ impl<C: Config, Q: Query> Snapshot<C, Q> {
                     ),
                 )
                 .await;
+
+            // The callee is in flight and (transitively) waits for this very
+            // query: an input edit has put both on a dependency cycle. What
+            // is stored for the callee is still its previous state, so there
+            // is nothing valid to compare against; the cycle is resolved by
+            // re-executing this query, which unwinds with its cycle default.
+            if repaired.is_err() {
+                return CalleeCheckDecision::Recompute;
+            }
         }
 
         let mut repair_transitive_firewall_callees = false;
